@@ -188,6 +188,8 @@ class Conn:
         n = 0
         for r in rows:
             if table == "events":
+                if any(r["id"] == bad for bad in self.db.fail_ids):
+                    raise OperationalError("injected fault: the engine rejects this row")
                 if any(x["id"] == r["id"] for x in self.db.tables["events"]):
                     if ignore:
                         continue
@@ -259,6 +261,7 @@ class FakeDB:
         self.tables = {"events": [], "tags": [], "auth": [], "identity": []}
         self.executes = 0
         self.fail_at = None
+        self.fail_ids = []      # event ids whose INSERT raises (engine-level rejection)
         self.reverse_order = reverse_order
         self.commits = self.rollbacks = self.open_txns = 0
         self.log = []
